@@ -31,13 +31,13 @@ class Ctx:
             self._cache[key] = eng.summarize(body, args)
         return self._cache[key]
 
-    def closure_paths(self, clo, outer, args, stop_trait_methods=(), opaque_prefixes=()):
+    def closure_paths(self, clo, outer, args, stop_trait_methods=(), opaque_prefixes=(), inline=True):
         """paths of a closure body evaluated in the store of the path `outer` that built the closure value `clo`;
         `args` are the explicit (untupled) arguments"""
         body = self.facts.by_hash.get(clo[1][2])
         if body is None:
             return None
-        eng = T.Engine(self.facts, T.Policy(stop_trait_methods=stop_trait_methods, no_inline_prefixes=opaque_prefixes))
+        eng = T.Engine(self.facts, T.Policy(stop_trait_methods=stop_trait_methods, no_inline_prefixes=opaque_prefixes, inline=inline))
         store = dict(outer['store'])
         envloc = (('L', 'env', 0), ())
         store[envloc] = clo
